@@ -105,9 +105,65 @@ func (ef *ErrFlow) CallImpure(info *types.Info, call *ast.CallExpr) bool {
 		return true
 	}
 	if f := ef.P.FuncOf(fn); f != nil {
+		if latchesError(f) {
+			// the callee keeps every error it returns in a field of its
+			// receiver (a sticky error): not forwarding the returned copy
+			// loses nothing, the next call reports it again
+			return false
+		}
 		return !ef.Pure(f)
 	}
 	return true
+}
+
+// latchesError reports whether every error a method returns is read from a
+// field of its own receiver (return n, r.immediateError).
+func latchesError(f *Func) bool {
+	if f.Decl.Recv == nil || len(f.Decl.Recv.List) != 1 || len(f.Decl.Recv.List[0].Names) != 1 || f.Decl.Body == nil {
+		return false
+	}
+	info := f.Info()
+	recv := info.ObjectOf(f.Decl.Recv.List[0].Names[0])
+	sig := f.Obj.Type().(*types.Signature)
+	errIdx := -1
+	for i := 0; i < sig.Results().Len(); i++ {
+		if IsErrorType(sig.Results().At(i).Type()) {
+			errIdx = i
+		}
+	}
+	if errIdx < 0 || recv == nil {
+		return false
+	}
+	ok, seen := true, 0
+	ast.Inspect(f.Decl.Body, func(n ast.Node) bool {
+		if _, isLit := n.(*ast.FuncLit); isLit {
+			return false
+		}
+		r, isRet := n.(*ast.ReturnStmt)
+		if !isRet {
+			return true
+		}
+		if len(r.Results) != sig.Results().Len() {
+			ok = false
+			return true
+		}
+		e := ast.Unparen(r.Results[errIdx])
+		if IsNil(info, e) {
+			return true
+		}
+		sel, isSel := e.(*ast.SelectorExpr)
+		if !isSel {
+			ok = false
+			return true
+		}
+		if id, isID := ast.Unparen(sel.X).(*ast.Ident); !isID || info.ObjectOf(id) != recv {
+			ok = false
+			return true
+		}
+		seen++
+		return true
+	})
+	return ok && seen > 0
 }
 
 // Pure reports whether no error returned by f can carry a source failure.
